@@ -1,6 +1,26 @@
 import Shm.Proto
 open Shm
 
+/-- model-side context of a call, printed with every mismatch so that the per-property judges can tell what the
+    disagreement is about: the session's CK_STATE and, for an object handle, whether the object is private / on token -/
+def callCtx (s : State) (c : Call) : String :=
+  let sess (h : Nat) : String :=
+    match sessTok s h with
+    | some (ss, t) => s!"state={(stateOf t ss.rw).toNat}"
+    | none => "state=-"
+  let obj (o : Nat) : String :=
+    match resolveObj s o with
+    | some (_, ob) => s!"objPriv={if ob.isPriv then 1 else 0} objTok={if ob.onToken then 1 else 0} cls={getULongD ob.attrs 0 99} sens={if getBoolD ob.attrs 0x103 false then 1 else 0} extr={if getBoolD ob.attrs 0x162 true then 1 else 0}"
+    | none => "obj=-"
+  match c with
+  | .create h tpl _ => s!"{sess h} tplPriv={match tplBool tpl 2 with | some true => 1 | some false => 0 | none => 2} tplTok={if (tplBool tpl 1).getD false then 1 else 0}"
+  | .destroy h o | .objProbe h o | .objSize h o => s!"{sess h} {obj o}"
+  | .getAttr h o _ _ => s!"{sess h} {obj o}"
+  | .setAttr h o _ _ => s!"{sess h} {obj o}"
+  | .copy h o _ _ => s!"{sess h} {obj o}"
+  | .findInit h _ _ | .find h _ | .findFinal h => sess h
+  | _ => ""
+
 /-- summary of one model step for the coverage histogram: op name + rv -/
 def sig (op : List String) (rv : Nat) : String := s!"{op.headD "?"}:{rv}"
 
@@ -38,11 +58,12 @@ partial def loop (h : IO.FS.Stream) (d : Drv) (pendingOp : Option (List String))
         loop h { d with unparsed := d.unparsed + 1 } none
       | some p =>
         let (st', r) := step d.st p.call
+        let ctxStr := callCtx d.st p.call
         let d := { d with st := st', pairs := d.pairs + 1 }
         match compareResp p.call r p.obs with
         | none => IO.println s!"ok {sig op r.rv}"; loop h d none
         | some why =>
-          IO.println s!"MISMATCH line {d.lineNo} cat={mismatchCat r p.obs} op={op.headD "?"} :: {" ".intercalate op} => {" ".intercalate res} :: {why}"
+          IO.println s!"MISMATCH line {d.lineNo} cat={mismatchCat r p.obs} op={op.headD "?"} :: {" ".intercalate op} => {" ".intercalate res} :: {why} :: ctx {ctxStr} modelrv={r.rv}"
           loop h { d with mism := d.mism + 1 } none
   | "#trace" :: _ => IO.println line.trimAscii.toString; loop h { d with st := {}, saved := [] } none
   | op => loop h d (some op)
